@@ -241,6 +241,11 @@ func c06HandBacks(short bool) []*gen.Expr {
 		},
 		func(x *gen.Expr) *gen.Expr { return gen.Pipe(x, gen.Current()) },
 		func(x *gen.Expr) *gen.Expr { return gen.Func("not_null", z, gen.Func("not_null", x)) },
+		// chosen by || / && next to an operand that is freshly built
+		func(x *gen.Expr) *gen.Expr { return gen.Or(x, gen.Chain(gen.Clone(x), gen.StListStar())) },
+		func(x *gen.Expr) *gen.Expr { return gen.Or(x, gen.Chain(gen.Clone(x), gen.StFilter(gen.Current()))) },
+		func(x *gen.Expr) *gen.Expr { return gen.And(gen.Chain(gen.Clone(x), gen.StListStar()), x) },
+		func(x *gen.Expr) *gen.Expr { return gen.Or(x, gen.MultiList(gen.Clone(x))) },
 	}
 	type operand struct {
 		x    *gen.Expr
@@ -626,7 +631,9 @@ func c06(r *mon.Run) {
 		return docs.J(`{"aa":[[3,1],[5,6,7],[2]],"an":[3,1,2,1],"as":["b","a","c"],"ao":[{"n":2,"s":"b","an":[2,1]},{"n":1,"s":"a","an":[4,3,9]},{"n":3,"s":"c","an":[]}],"o":{"n":1,"an":[9,8],"o":{"an":[7,5,6]}},"o2":{"s":"y","n":7},"z":null,"ss":["pq","rs"],"aas":[["b","a"],["d","c","e"]],"aao":[[{"n":2},{"n":1}],[{"n":5},{"n":4},{"n":3}]],"ao2":[{"o":{"n":2,"k":1}},{"o":{"n":1,"j":2}}]}`)
 	}
 	providers := []string{"max_by(%A, &length(@))", "min_by(%A, &length(@))", "not_null(z, %L)", "not_null(%L)", "to_array(%L)", "%A[0]", "%A[-1]", "ao[1].an", "o.an", "o.o.an", "max_by(ao, &n).an", "min_by(ao, &n).an", "(%L)", "z || %L", "%L || z", "%L && %L", "@.%L", "[%L][0]", "{k: %L}.k", "%L | @",
-		"map(&@, %A)[1]", "(%A[*])[1]", "reverse(%A)[0]", "sort_by(ao, &n)[0].an", "merge(o).an", "merge(o, o2).an", "not_null(z, %A)[1]", "to_array(%A)[1]", "(%A || z)[1]", "%A[?length(@) > `1`] | [0]", "%A[1:] | [0]", "values({k: %L})[0]", "not_null(z, not_null(%L))", "max_by([%L], &length(@))", "to_array(to_array(%L))"}
+		"map(&@, %A)[1]", "(%A[*])[1]", "reverse(%A)[0]", "sort_by(ao, &n)[0].an", "merge(o).an", "merge(o, o2).an", "not_null(z, %A)[1]", "to_array(%A)[1]", "(%A || z)[1]", "%A[?length(@) > `1`] | [0]", "%A[1:] | [0]", "values({k: %L})[0]", "not_null(z, not_null(%L))", "max_by([%L], &length(@))", "to_array(to_array(%L))",
+		// the document's list chosen by || / && next to an operand that IS freshly built (what decides "temporary" looks at both operands)
+		"%L || %L[*]", "%L || %L[?@]", "%L || `[]`", "%L || [%L][]", "%L || map(&@, %L)", "%L || %A[]", "%L[*] && %L", "`[1]` && %L", "[%L] && %L", "%L[?@] && %L", "(%L || %L[:1])", "not_null(%L, %L[*])", "z || %L || %L[*]", "(z || %L) || %L[::-1]", "%L && %L || %L[*]"}
 	outers := []string{"reverse(%P)", "sort(%P)", "sort_by(%P, &@)", "sort_by(%P, &n)", "%P[]", "%P[*]", "%P[?@]", "%P[1:]", "%P[::-1]", "to_array(%P)", "map(&@, %P)", "join(',', %P)", "max(%P)", "not_null(%P)", "[%P, %P]", "%P | reverse(@)", "reverse(%P) | sort(@)", "sort(%P) | reverse(@)",
 		"merge(%O, {n: `0`})", "merge(%O, o2)", "merge(%O, `{}`, {an: `[]`})", "merge(%O).n", "%O.*", "values(%O)", "max_by(%P, &@)", "[%P][]", "[%P, %P][]", "reverse(reverse(%P))", "sort_by(%P, &to_string(@))", "reverse(%P)[0]", "length(reverse(%P))", "abs(reverse(%P))", "[reverse(%P), sort(%P)]"}
 	lists := [][2]string{{"aa", "an"}, {"aas", "as"}, {"aao", "ao"}}
